@@ -338,7 +338,7 @@ pub fn check_pair(name: &str, sugar: &str, plain: &str, dir: &Path, case: &Value
 
 pub fn run(run: &Run) {
     run.set_rule(
-        "completeness: 55 statement forms x 16 sugared expressions (tuples, nested tuples, anonymous \
+        "completeness: 63 statement forms x 16 sugared expressions (tuples, nested tuples, anonymous \
          components positional / named / reordered / unknown name / `<--` input / parallel / nested / \
          inside arithmetic and call arguments) x 5 contexts (+ every pair of sugared expressions \
          combined), through the real parse_files; faithfulness: 21 legal uses, each \
